@@ -7,7 +7,7 @@ TV = "Every instance of a catalogue + seeded-random family is run through the re
 CLAIMED = {
  "C01": ("tlc-trace", "TLC trace validation (spec/TraceLR.tla): LR(1) certificate on the implementation's automaton, table cells re-derived with Yacc's rules, parses re-run on LRParse.tla, language oracle from derivations and the canonical LR(1) parser; bounded model MC_Pager.tla (every successor order -> table -> every input up to length L)", "5 C01"),
  "C02": ("tlc-trace", "TLC replay of recorded Pager decisions (pick/exact/merge/new) through Pager.tla actions and gc; canonical LR(1) collection and parser as oracle; bounded model MC_Pager.tla (Pager under every successor order; LALR merging refuted)", "5 C02"),
- "C03": ("tlc-trace", "TLC re-derivation of every table cell and conflict list with StateTable.YaccCell; production precedence from the source's %prec; %expect rule via build histories on CTBuild.tla", "5 C03"),
+ "C03": ("tlc-trace", "TLC re-derivation of every table cell and conflict list with StateTable.YaccCell; production precedence from the source's %prec; %expect rule via build histories on CTBuild.tla; bounded model MC_StateTable.tla (cell filling under every order of the candidate reductions = YaccCell)", "5 C03"),
  "C04": ("tlc-trace", "TLC trace validation of error positions against first-non-prefix (derivations) and the canonical LR(1) parser", "5 C04"),
  "C05": ("tlc-trace", "TLC trace validation: reported repairs applied on the specification's LR machine; recover_in / recover_out hook events against the replay of the first repair; bounded model MC_CPCT.tla (the CPCT+ algorithm as coded against the reference search, two wrong variants refuted)", "5 C05"),
  "C06": ("tlc-trace", "TLC trace validation: reported repair set against the exhaustive minimum-cost reference search CPCTPlus.RefRepairs; ranking laws; bounded model MC_CPCT.tla (buckets, node merging, first-success cut-off and sweep, unfolding, ranking = RefRepairs for every erroneous input)", "5 C06"),
